@@ -216,7 +216,16 @@ func (P *Program) loadPrelude(dir string) error {
 				continue
 			}
 			if m := specLine.FindStringSubmatch(tl); m != nil {
-				sf := specFunc{res: strings.TrimSpace(m[3])}
+				resS := strings.TrimSpace(m[3])
+				var gt types.Type
+				if i := strings.Index(resS, " : "); i > 0 {
+					gt = P.parseTypeExpr(strings.TrimSpace(resS[i+3:]))
+					if gt == nil {
+						return fmt.Errorf("prelude: cannot resolve Go type %q of spec %s", resS[i+3:], m[1])
+					}
+					resS = strings.TrimSpace(resS[:i])
+				}
+				sf := specFunc{res: resS, gt: gt}
 				sf.args = splitSorts(m[2])
 				P.specFuncs[m[1]] = sf
 				if cur != nil {
@@ -519,6 +528,9 @@ func (P *Program) genVC(con *Contract) (*FuncResult, *VC) {
 		reqs = append(reqs, t)
 		vc.assume(t)
 	}
+	for _, r := range con.ObjInv {
+		vc.assume(env.evalBool(r.E))
+	}
 	nReq := len(vc.asserts)
 	f.run(args, fvs, st, "true")
 	res, est, er := f.exit()
@@ -539,6 +551,10 @@ func (P *Program) genVC(con *Contract) (*FuncResult, *VC) {
 			t := perReturn(e)
 			o := vc.addObl(f, "post", fmt.Sprintf("ensures[%s]", clauseName(e, i)), t, e.Src, fn.Pos())
 			_ = o
+		}
+		for i, e := range con.ObjInv {
+			t := perReturn(e)
+			vc.addObl(f, "post", fmt.Sprintf("objinv[%s]", clauseName(e, i)), t, e.Src, fn.Pos())
 		}
 		for i, e := range con.MustFail {
 			t := perReturn(e)
